@@ -277,6 +277,7 @@ type vFamily struct {
 
 var famRefs = vFamily{P1: 4, P2: true, Vals: 1, Del: true}
 var famProps = vFamily{P1: 2, P2: false, Vals: 3, Del: true}
+var famTiny = vFamily{P1: 1, P2: false, Vals: 3, Del: true}
 
 // drawVersion draws one entity version from a small family.
 func drawVersion(h *verifh.H, ids, targets []string, fam vFamily) *mVersion {
@@ -336,7 +337,19 @@ func (hs *vHistory) step(h *verifh.H, s int, fam vFamily, batch2, firstAny bool)
 	}
 	nb := 1
 	if batch2 {
-		nb = 2 // the same dataset gets two versions in one batch (ids may repeat)
+		// the same dataset gets several versions in one batch (ids may repeat)
+		nb = h.Param("batchN", 2)
+	}
+	if h.Param("oneId", 0) == 1 {
+		ids = ids[:1]
+	}
+	switch h.Param("tiny", 0) {
+	case 1:
+		fam = famTiny
+	case 2:
+		fam = vFamily{P1: 1, P2: false, Vals: 2, Del: true}
+	case 3:
+		fam = vFamily{P1: 4, P2: false, Vals: 1, Del: true}
 	}
 	var batch []*mVersion
 	var ents []*Entity
